@@ -58,7 +58,7 @@ Definition steps_of (c : case) : list stp :=
   expand n (repeat (obs_link (link0 t0)) n) (obs_glob (init n t0) false) ds.
 
 (** ---- monitor driver ---- *)
-Definition ml0 (t0 : Z) : mlink := ML (obs_link (link0 t0)) false false false true true None false false 0.
+Definition ml0 (t0 : Z) : mlink := ML (obs_link (link0 t0)) false false false true true None false false 0 None false.
 
 Fixpoint mon_links (o : op) (cfg : Z) (pb : bool) (i : nat) (ms : list mlink) (qs : list lobs) (ws : list (list Z))
   : list (N * mlink) :=
